@@ -284,6 +284,13 @@ def formulaMat (e : Estimator) (g : Gm) (p w : List Rat) : QM :=
     | .yang => yangFormulaF g.ploidy g.m (at1 pA) x i j
     | .gw => gwFormulaF g.m g.ploidy (at1 wA) (at1 pA) x i j))
 
+/-! #### taxa indices as the caller writes them -/
+
+/-- `select_taxa(indices)` of the genotype matrix and of the square matrix both go through `numpy.take`, which
+    reads a negative index relative to the end (once) and rejects anything else out of range: `LabelMat.normIdxs`
+    (C03's model of the same rule).  `none` = IndexError. -/
+def normSel (n : Nat) (is : List Int) : Option (List Nat) := (LabelMat.normIdxs n is).toOption
+
 /-! #### a freshly built relationship matrix -/
 
 /-- what was read back from the implementation's object -/
